@@ -166,6 +166,33 @@ def run(ck, prog):
     if not pushes:
         return undecided("neither a mapped range nor a push loop builds the exemption points")
     g = flow(f)
+    # form B: a loop over a range pushing point(item)
+    for b, t in pushes:
+        e = strip_conv(expr_at(f, t["args"][1]))
+        if not (e[0] == "call" and e[1].endswith(("FieldElement::exp", "FieldElement::exp_vartime")) and len(e[2]) == 2):
+            continue
+        item = strip_conv(e[2][1])
+        if not (item[0] == "field" and item[1] == 0 and item[2][0] == "call" and item[2][1].endswith("Iterator::next")):
+            continue
+        it = strip_conv(item[2][2][0])
+        while it[0] == "call" and it[1].endswith(("IntoIterator::into_iter",)) and it[2]:
+            it = strip_conv(it[2][0])
+        if not (it[0] == "agg" and str(it[1]).endswith("range::Range") and len(it[2]) == 2):
+            continue
+        if is_domain_point(e, n_sym, item) is not True:
+            return undecided("the pushed value is not recognised as g^item")
+        llo, lhi = lin_in(it[2][0], {"n": n_sym, "k": k_sym}), lin_in(it[2][1], {"n": n_sym, "k": k_sym})
+        if llo is None or lhi is None:
+            return undecided("the range bounds are not linear in (n, k)")
+        good = llo == {"n": 1, "k": -1} and lhi == {"n": 1}
+        shifted = llo.get("n") == 1 and llo.get("k") == -1 and lhi.get("n") == 1 and "k" not in lhi and set(llo) <= {"n", "k", 1} and set(lhi) <= {"n", 1}
+        if not good and not shifted:
+            return undecided("the range bounds have an unexpected shape")
+        ck.ob("EXEMPT", key, good,
+              "the exemption points are g^s for s in the range (n - k .. n): the last k steps of the enforcement domain, for every k",
+              loc=f0.loc(), detail=None if good else {"range": f"({llo} .. {lhi}) instead of (n - k .. n)"})
+        return
+
     def root(l):
         """the variable a temporary is a plain copy of"""
         for _ in range(10):
